@@ -22,7 +22,10 @@ func NewStructProtoFunc() erpc.ProtoFunc {
 			name:      "thrift-struct",
 			rwCounter: utils.NewReadWriteCounter(rw),
 		}
-		p.tProtocol = thrift.NewTHeaderProtocol(&BaseTTransport{
+		p.rProtocol = thrift.NewTHeaderProtocol(&BaseTTransport{
+			ReadWriteCounter: p.rwCounter,
+		})
+		p.wProtocol = thrift.NewTHeaderProtocol(&BaseTTransport{
 			ReadWriteCounter: p.rwCounter,
 		})
 		return p
@@ -41,7 +44,7 @@ func (t *tStructProto) Version() (byte, string) {
 func (t *tStructProto) Pack(m erpc.Message) error {
 	err := t.structPack(m)
 	if err != nil {
-		t.tProtocol.Transport().Close()
+		t.wProtocol.Transport().Close()
 	}
 	return err
 }
@@ -49,7 +52,7 @@ func (t *tStructProto) Pack(m erpc.Message) error {
 func (t *tStructProto) Unpack(m erpc.Message) error {
 	err := t.structUnpack(m)
 	if err != nil {
-		t.tProtocol.Transport().Close()
+		t.rProtocol.Transport().Close()
 	}
 	return err
 }
@@ -68,7 +71,7 @@ func (t *tStructProto) structPack(m erpc.Message) error {
 	defer t.packLock.Unlock()
 	t.rwCounter.WriteCounter.Zero()
 
-	err := writeMessageBegin(t.tProtocol, m)
+	err := writeMessageBegin(t.wProtocol, m)
 	if err != nil {
 		return err
 	}
@@ -77,18 +80,18 @@ func (t *tStructProto) structPack(m erpc.Message) error {
 	if !ok {
 		return fmt.Errorf("thrift codec: %T does not implement thrift.TStruct", m.Body())
 	}
-	if err = s.Write(t.tProtocol); err != nil {
+	if err = s.Write(t.wProtocol); err != nil {
 		return err
 	}
 
-	t.tProtocol.ClearWriteHeaders()
-	t.tProtocol.SetWriteHeader(HeaderStatus, m.Status(true).QueryString())
-	t.tProtocol.SetWriteHeader(HeaderMeta, goutil.BytesToString(m.Meta().QueryString()))
+	t.wProtocol.ClearWriteHeaders()
+	t.wProtocol.SetWriteHeader(HeaderStatus, m.Status(true).QueryString())
+	t.wProtocol.SetWriteHeader(HeaderMeta, goutil.BytesToString(m.Meta().QueryString()))
 
-	if err = t.tProtocol.WriteMessageEnd(); err != nil {
+	if err = t.wProtocol.WriteMessageEnd(); err != nil {
 		return err
 	}
-	if err = t.tProtocol.Flush(m.Context()); err != nil {
+	if err = t.wProtocol.Flush(m.Context()); err != nil {
 		return err
 	}
 
@@ -98,8 +101,8 @@ func (t *tStructProto) structPack(m erpc.Message) error {
 func (t *tStructProto) structUnpack(m erpc.Message) error {
 	t.unpackLock.Lock()
 	defer t.unpackLock.Unlock()
-	t.rwCounter.WriteCounter.Zero()
-	err := readMessageBegin(t.tProtocol, m)
+	t.rwCounter.ReadCounter.Zero()
+	err := readMessageBegin(t.rProtocol, m)
 	if err != nil {
 		return err
 	}
@@ -109,15 +112,15 @@ func (t *tStructProto) structUnpack(m erpc.Message) error {
 	if !ok {
 		return fmt.Errorf("thrift codec: %T does not implement thrift.TStruct", m.Body())
 	}
-	if err = s.Read(t.tProtocol); err != nil {
+	if err = s.Read(t.rProtocol); err != nil {
 		return err
 	}
 
-	if err = t.tProtocol.ReadMessageEnd(); err != nil {
+	if err = t.rProtocol.ReadMessageEnd(); err != nil {
 		return err
 	}
 
-	headers := t.tProtocol.GetReadHeaders()
+	headers := t.rProtocol.GetReadHeaders()
 	m.Status(true).DecodeQuery(goutil.StringToBytes(headers[HeaderStatus]))
 	m.Meta().Parse(headers[HeaderMeta])
 
